@@ -3,7 +3,7 @@ use crate::dist::*;
 use crate::fw::*;
 use crate::oracle::jp::jaccard;
 use crate::sk::*;
-use crate::stat::Acc;
+use crate::stat::{mean_test, Acc, MeanTest};
 use crate::util::*;
 use proptest::prelude::*;
 use serde::{Deserialize, Serialize};
@@ -125,19 +125,43 @@ pub fn eval(c: &Case) -> Eval {
 // the union U = A u B holds any given item of U with the same probability, so the fraction of positions of U's sketch holding an
 // item of A & B has expectation exactly J. D = (fraction of equal positions of A's and B's sketches) - (that fraction) therefore has
 // expectation E[collisions] - J, and a far smaller variance than the collision fraction itself (positions that collide are mostly the
-// positions where the union holds a common item). E D = 0 is decided by empirical Bernstein; this resolves relative biases of a
-// fraction of a percent in the sparse regime, where the plain mean test would need 100x the trials.
+// positions where the union holds a common item). Decision in two stages:
+//  1. screening sample of T0 trials. If D = 0 in every trial (what the crate's algorithms give), then P(D != 0) <= L / T0 with
+//     confidence 1 - 1e-14 and |E D| <= P(D != 0): the case holds at the resolution L / T0, far better than any mean test on T0 trials.
+//  2. when some screening trials have D != 0 and their mean is large enough for the second stage to resolve, the case is escalated: a fresh, independent sample of `big_trials` trials (drawn on 16 threads) and E D = 0 decided by
+//     empirical Bernstein, confirmed on another independent sample of twice the size. The screening sample only decides where the
+//     budget is spent; the verdict rests on the fresh samples alone.
 // Which item a position of U holds is read from the u64 view (observed to be the hash of the item held); the premise is verified on
 // every trial (every u64 value of U's sketch must be the hash of an item of U) and the case is skipped when it does not hold.
 
-fn sample_cv(c: &Case, seed: u64, trials: u64) -> (Vec<Acc>, bool) {
+#[derive(Clone, Debug, Serialize, Deserialize)]
+pub struct CvCase {
+    pub kind: Kind,
+    pub m: usize,
+    pub only_a: usize,
+    pub only_b: usize,
+    pub both: usize,
+    /// screening trials
+    pub trials: u64,
+    /// trials of the escalated decision (and twice as many for its confirmation)
+    pub big_trials: u64,
+    pub seed: u64,
+}
+
+struct CvSample {
+    accs: Vec<Acc>,
+    premise: bool,
+    /// trials in which some view has D != 0
+    nonzero: u64,
+}
+
+fn sample_cv(c: &CvCase, seed: u64, trials: u64) -> CvSample {
     let mut rng = SmRng::new(seed);
     let mut sa = make(c.kind, c.m, &DUMMY);
     let mut sb = make(c.kind, c.m, &DUMMY);
     let mut su = make(c.kind, c.m, &DUMMY);
-    let mut accs = vec![Acc::default(); 3];
+    let mut out = CvSample { accs: vec![Acc::default(); 3], premise: true, nonzero: 0 };
     let (mut va, mut vb, mut vu): (Vec<u64>, Vec<u64>, Vec<u64>) = (vec![], vec![], vec![]);
-    let mut premise = true;
     let mut common: std::collections::HashSet<u64> = std::collections::HashSet::new();
     let mut all: std::collections::HashSet<u64> = std::collections::HashSet::new();
     for _ in 0..trials {
@@ -173,72 +197,161 @@ fn sample_cv(c: &Case, seed: u64, trials: u64) -> (Vec<Acc>, bool) {
         let (wa, wb, wu) = (sa.views(), sb.views(), su.views());
         let uh = wu.get("u64").unwrap();
         if !uh.iter().all(|h| all.contains(h)) {
-            premise = false;
+            out.premise = false;
             break;
         }
-        let ctl = uh.iter().filter(|h| common.contains(h)).count() as f64 / c.m as f64;
+        let ctl = uh.iter().filter(|h| common.contains(h)).count();
+        let mut any = false;
         for (vi, name) in ["float", "u64", "u32"].iter().enumerate() {
             let (x, y) = (wa.get(name).unwrap(), wb.get(name).unwrap());
             let eq = x.iter().zip(y.iter()).filter(|(p, q)| p == q).count();
+            any |= eq != ctl;
             // mapped into [0,1]: X = (D + 1) / 2, E X = 1/2 under the property
-            accs[vi].push(0.5 * (eq as f64 / c.m as f64 - ctl + 1.0));
+            out.accs[vi].push(0.5 * ((eq as f64 - ctl as f64) / c.m as f64 + 1.0));
         }
+        out.nonzero += any as u64;
     }
-    (accs, premise)
+    out
 }
 
-pub fn eval_cv(c: &Case) -> Eval {
-    let j = jaccard(c.only_a, c.only_b, c.both);
-    let (_, premise) = sample_cv(c, c.seed ^ 0x5EED, 8);
-    if !premise {
-        return Ok(Report::new(false).class("u64-view-is-not-the-hash-of-the-item-held(skipped)"));
-    }
-    let checks: Vec<Check> = ["float view", "u64 view", "u32 view"]
-        .iter()
-        .map(|n| Check { name: format!("mean of (1 + fraction of equal positions ({}) - fraction of positions of the union's sketch holding a common item) / 2, which is 1/2 when the expected collision fraction is J", n), want: Want::Mean { mu: 0.5, var_h: None } })
-        .collect();
-    let what = format!("{:?} m={} |A\\B|={} |B\\A|={} |A&B|={} J={:.6}", c.kind, c.m, c.only_a, c.only_b, c.both, j);
-    let ok_premise = std::sync::atomic::AtomicBool::new(true);
-    let tests = decide_multi(&what, &checks, c.trials, c.seed, &|s, t| {
-        let (a, p) = sample_cv(c, s, t);
-        if !p {
-            ok_premise.store(false, std::sync::atomic::Ordering::Relaxed);
-            // neutral accumulators: the case is reported as skipped below
-            return vec![{ let mut z = Acc::default(); z.push(0.5); z.push(0.5); z }; 3];
+/// `trials` trials drawn on 16 threads (chunk seeds derived from `seed`, results merged in chunk order: deterministic)
+fn sample_cv_par(c: &CvCase, seed: u64, trials: u64) -> CvSample {
+    const CH: u64 = 16;
+    let per = (trials + CH - 1) / CH;
+    let parts: Vec<CvSample> = std::thread::scope(|sc| {
+        let hs: Vec<_> = (0..CH).map(|k| sc.spawn(move || sample_cv(c, mix(&[seed, 0xC8, k]), per))).collect();
+        hs.into_iter().map(|h| h.join().expect("sampler thread")).collect()
+    });
+    let mut out = CvSample { accs: vec![Acc::default(); 3], premise: true, nonzero: 0 };
+    for p in parts {
+        for i in 0..3 {
+            out.accs[i].merge(&p.accs[i]);
         }
-        a
-    })?;
-    if !ok_premise.load(std::sync::atomic::Ordering::Relaxed) {
-        return Ok(Report::new(false).class("u64-view-is-not-the-hash-of-the-item-held(skipped)"));
+        out.premise &= p.premise;
+        out.nonzero += p.nonzero;
     }
+    out
+}
+
+fn eval_cv_inner(c: &CvCase, strict: bool) -> Eval {
+    let j = jaccard(c.only_a, c.only_b, c.both);
     let union = c.only_a + c.only_b + c.both;
     let nmax = (c.only_a + c.both).max(c.only_b + c.both);
-    Ok(Report::new(j > 0.0 && j < 1.0)
-        .trials(3 * c.trials)
-        .resolution(2.0 * tests[0].tol)
-        .class(format!("{:?}", c.kind))
-        .class_if(2 * nmax <= c.m, "sparse(at-least-half-the-bins-filled-by-densification)")
-        .class_if(8 * union <= c.m, "very-sparse(fill<=1/8)")
-        .class_if(union >= 2 * c.m, "fill>=2"))
+    let skipped = || Ok(Report::new(false).class("u64-view-is-not-the-hash-of-the-item-held(skipped)"));
+    let rep = |trials: u64, res: f64| {
+        Report::new(j > 0.0 && j < 1.0)
+            .trials(3 * trials)
+            .resolution(res)
+            .class(format!("{:?}", c.kind))
+            .class_if(2 * nmax <= c.m, "sparse(at-least-half-the-bins-filled-by-densification)")
+            .class_if(8 * union <= c.m, "very-sparse(fill<=1/8)")
+            .class_if(union >= 2 * c.m, "fill>=2")
+            .class_if(c.m > 2048, "m>2048")
+    };
+    let s0 = sample_cv(c, c.seed, c.trials);
+    if !s0.premise {
+        return skipped();
+    }
+    if s0.nonzero == 0 {
+        return Ok(rep(c.trials, L / c.trials as f64).class("every-trial-exactly-consistent-with-the-union"));
+    }
+    // some trials differ. The second stage is run only where it can resolve something: when the screening mean of D, for some view,
+    // exceeds 0.8 x the tolerance the second stage will have (predicted from the screening variance). This is budget allocation only:
+    // the verdict rests on the fresh samples. Otherwise P(D != 0) is still bounded by the screening sample (Bernstein bound for a
+    // binomial proportion), which bounds |E D| and is recorded as the resolution.
+    let promising = s0.accs.iter().any(|a| (a.mean - 0.5).abs() > 0.8 * crate::stat::emp_bernstein_tol(a.var(), 1.0, L + std::f64::consts::LN_2, c.big_trials as f64));
+    if !promising {
+        let (k, t) = (s0.nonzero as f64, c.trials as f64);
+        return Ok(rep(c.trials, ((k + 2.0 * L + 2.0 * (k * L).sqrt()) / t).min(1.0)).class("some-trials-differ-from-the-union-control(mean-difference-below-what-the-second-stage-resolves)"));
+    }
+    let what = format!("{:?} m={} |A\\B|={} |B\\A|={} |A&B|={} J={:.6}", c.kind, c.m, c.only_a, c.only_b, c.both, j);
+    if std::env::var("VERIF_DEBUG_CV").is_ok() {
+        eprintln!("ESCALATE {} nonzero={}/{} big<={}", what, s0.nonzero, c.trials, c.big_trials);
+    }
+    // size of the second stage: what the screening estimate suggests is needed (x 1.5), never more than the budget of the case
+    let need = s0
+        .accs
+        .iter()
+        .map(|a| {
+            let mu = (a.mean - 0.5).abs().max(1e-9);
+            let l2 = L + 2.0 * std::f64::consts::LN_2;
+            (4.0 * 7.0 * l2 / (3.0 * mu)).max(8.0 * a.var() * l2 / (mu * mu))
+        })
+        .fold(f64::INFINITY, f64::min);
+    let big = ((1.5 * need) as u64).clamp(2_000, c.big_trials.max(2_000));
+    // once a violation of this sub-check is confirmed, cases still waiting for their second stage are not decided any more
+    // (on a violating tree the reported counterexample can therefore differ between runs; each one is confirmed and replayable)
+    let undecided = || Ok(rep(c.trials, 1.0).class("second-stage-not-run(another-case-already-failed)"));
+    if CV_FAILED.load(std::sync::atomic::Ordering::Relaxed) && !strict {
+        return undecided();
+    }
+    let s1 = sample_cv_par(c, splitmix64(c.seed ^ 0xE5CA1A7E), big);
+    if !s1.premise {
+        return skipped();
+    }
+    let names = ["float view", "u64 view", "u32 view"];
+    let t1: Vec<MeanTest> = s1.accs.iter().map(|a| mean_test(a, 0.5, None, L)).collect();
+    if t1.iter().any(|t| !t.ok) {
+        if CV_FAILED.load(std::sync::atomic::Ordering::Relaxed) && !strict {
+            return undecided();
+        }
+        let s2 = sample_cv_par(c, splitmix64(c.seed ^ 0xC0FFEE), 2 * big);
+        if !s2.premise {
+            return skipped();
+        }
+        for i in 0..3 {
+            let t2 = mean_test(&s2.accs[i], 0.5, None, L);
+            if !t1[i].ok && !t2.ok {
+                CV_FAILED.store(true, std::sync::atomic::Ordering::Relaxed);
+                return Err(Fail::new(format!(
+                    "{}: expected fraction of equal positions ({}) minus the fraction of positions of the union's sketch holding a common item (whose expectation is exactly J): empirical mean {:.6e} (T = {}), then {:.6e} on an independent sample (T = {}); it is 0 when the expected collision fraction is J; rigorous tolerances {:.3e} / {:.3e}. {} of the {} screening trials had a non-zero difference",
+                    what, names[i], 2.0 * (t1[i].mean - 0.5), big, 2.0 * (t2.mean - 0.5), 2 * big, 2.0 * t1[i].tol, 2.0 * t2.tol, s0.nonzero, c.trials
+                )));
+            }
+        }
+    }
+    Ok(rep(c.trials + big, 2.0 * t1[0].tol).class("escalated(some-trial-differs-from-the-union-control)"))
 }
 
-fn cv_strategy(work: u64) -> impl Strategy<Value = Case> {
+static CV_FAILED: std::sync::atomic::AtomicBool = std::sync::atomic::AtomicBool::new(false);
+
+pub fn eval_cv(c: &CvCase) -> Eval {
+    eval_cv_inner(c, false)
+}
+/// replay: always decides
+pub fn eval_cv_strict(c: &CvCase) -> Eval {
+    eval_cv_inner(c, true)
+}
+
+fn cv_strategy(work: u64, big_work: u64) -> impl Strategy<Value = CvCase> {
     let kinds = vec![Kind::OptF64, Kind::OptF32, Kind::RevF64, Kind::RevF32];
-    let fill = prop::sample::select(vec![1.0 / 16.0, 0.125, 0.2, 0.35, 0.5, 0.8, 1.0, 2.0, 3.0]);
-    (prop::sample::select(kinds), prop_oneof![1 => 2usize..16, 3 => 16usize..200, 1 => prop::sample::select(vec![16usize, 32, 64, 128, 256])], fill, 0.05f64..0.95, 0.0f64..1.0, any::<u64>()).prop_map(move |(kind, m, fill, jfrac, split, seed)| {
-        let union = ((fill * m as f64).round() as usize).max(2);
+    // (m, |A u B|): small and medium sketches over fill ratios 1/16 .. 3, and sketches of 2049 .. 9000 positions with sets from 4 items to m/4
+    let small = (prop_oneof![1 => 2usize..16, 3 => 16usize..200, 1 => prop::sample::select(vec![16usize, 32, 64, 128, 256, 512, 1024])], prop::sample::select(vec![1.0 / 16.0, 0.125, 0.2, 0.35, 0.5, 0.8, 1.0, 2.0, 3.0]))
+        .prop_map(|(m, fill)| (m, ((fill * m as f64).round() as usize).max(2)));
+    let large = (prop_oneof![2 => 2049usize..4200, 1 => 4200usize..9000, 1 => prop::sample::select(vec![2400usize, 3000, 4096, 8192])], 0.0f64..1.0).prop_map(|(m, u)| (m, (4.0 * (m as f64 / 16.0).powf(u)).round() as usize));
+    (prop::sample::select(kinds), prop_oneof![5 => small, 1 => large], 0.05f64..0.95, 0.0f64..1.0, any::<u64>()).prop_map(move |(kind, (m, union), jfrac, split, seed)| {
+        let union = union.max(2);
         let both = ((jfrac * union as f64).round() as usize).clamp(1, union - 1);
         let rest = union - both;
         let only_a = (split * rest as f64).round() as usize;
         let only_b = rest - only_a;
-        let n_min = (only_a + both).min(only_b + both).max(1) as u64;
-        let dens_cost = match kind {
-            Kind::OptF64 | Kind::OptF32 => (m as u64) * (1 + (m as u64) / n_min).min(200),
-            _ => (m as u64) * 12,
+        // calibrated cost model, in nanoseconds of one core: per sketch 60 ns per item; optimal densification seeds one generator per
+        // empty bin and makes about m ln(m/p) probes; reverse densification seeds one generator per populated bin and pass, about ln m + 2 passes
+        let cost = |n: usize| -> f64 {
+            let (mf, nf) = (m as f64, n as f64);
+            let p = mf * (1.0 - (-nf / mf).exp()); // expected number of populated bins
+            let dens = if mf - p < 0.5 {
+                0.0
+            } else {
+                match kind {
+                    Kind::OptF64 | Kind::OptF32 => 110.0 * (mf - p) + 10.0 * mf * (mf / p.max(1.0)).ln(),
+                    _ => 150.0 * mf * (mf.ln() + 2.0),
+                }
+            };
+            60.0 * nf + 30.0 * mf + dens
         };
-        let per_trial = 4 * union as u64 + 3 * dens_cost;
-        let trials = (work / per_trial.max(1)).clamp(20_000, 400_000);
-        Case { kind, m, only_a, only_b, both, trials, seed }
+        let per_trial = ((cost(only_a + both) + cost(only_b + both) + cost(union) + 100.0 * union as f64) as u64).max(1);
+        CvCase { kind, m, only_a, only_b, both, trials: (work / per_trial).clamp(300, 20_000), big_trials: (big_work / per_trial).clamp(4_000, 200_000), seed }
     })
 }
 
@@ -246,21 +359,23 @@ pub fn run(ctx: &Ctx) {
     ctx.set_rule("proptest generates (algorithm Opt/RevOpt with f64/f32, m from 1 upward, fill ratio |A u B|/m in {1/64 .. 50}, Jaccard fraction, split of the difference, shapes general / nested / single common item, trial seed). \
         Per trial fresh random items, both sets sketched with sketch_slice; three statistics per trial: fraction of equal positions in the float, u64 and u32 views. Oracle J = |A&B|/|A u B|. Decision: Bernstein with the generic variance J(1-J) and empirical Bernstein (positions are strongly correlated after densification), \
         delta 1e-14, confirmation on an independent seed with 4x trials. Non-trivial = 0 < J < 1. Trials come from a work budget (sparse cases are cheap and get up to 4e5 trials). \
-        Sub-check control-variate (m 2..256, fill 1/16..3): per trial the union is sketched as well; the items being fresh random labels are exchangeable, so the fraction of positions of the union's sketch that hold an item of A&B has expectation exactly J whatever the algorithm; \
-        D = collision fraction - that fraction has expectation E[collisions] - J and a far smaller variance; E D = 0 is decided by empirical Bernstein (delta 1e-14, confirmation on an independent seed), 2e4 .. 4e5 trials per case. The item held by a position is read from the u64 view (verified per trial to be the hash of an item of the union; the case is skipped otherwise).");
+        Sub-check control-variate (m 2..1024 over fill 1/16..3, and m 2049..9000 with sets from 4 items to m/4): per trial the union is sketched as well; the items being fresh random labels are exchangeable, so the fraction of positions of the union's sketch that hold an item of A&B has expectation exactly J whatever the algorithm; \
+        D = collision fraction - that fraction has expectation E[collisions] - J. Stage 1: a screening sample (300..2e4 trials); when D = 0 in every trial, P(D != 0) <= L/T0 (delta 1e-14) bounds |E D| and the case holds at that resolution. Stage 2 (only when some screening trials have D != 0 and their mean exceeds 0.8 x the tolerance the second stage will reach; otherwise the binomial bound on P(D != 0) is recorded as the resolution): a fresh independent sample of 2e3..2e5 trials (sized from the screening estimate), E D = 0 decided by empirical Bernstein (delta 1e-14), confirmed on another independent sample of twice the size. \
+        The item held by a position is read from the u64 view (verified per trial to be the hash of an item of the union; the case is skipped otherwise).");
     super::run_fixed_tier(ctx, replay);
     let (cases, max_m, work) = ctx.tier.pick((160, 512, 12_000_000), (2400, 4096, 60_000_000));
     ctx.drive("unbiased", cases, 16, 16, || strategy(max_m, work), eval);
-    let (cases, work) = ctx.tier.pick((64, 60_000_000), (960, 300_000_000));
-    ctx.drive("control-variate", cases, 16, 4, || cv_strategy(work), eval_cv);
+    let (cases, work, big_work) = ctx.tier.pick((400, 40_000_000, 20_000_000_000), (8000, 150_000_000, 60_000_000_000));
+    ctx.drive("control-variate", cases, 16, 0, || cv_strategy(work, big_work), eval_cv);
 }
 
 pub fn replay(ctx: &Ctx, sub: &str, case: &Value) -> Result<(), String> {
-    let c: Case = parse_case(case)?;
     if sub == "control-variate" {
-        ctx.run_fixed(sub, &c, eval_cv);
+        let c: CvCase = parse_case(case)?;
+        ctx.run_fixed(sub, &c, eval_cv_strict);
         return Ok(());
     }
+    let c: Case = parse_case(case)?;
     ctx.run_fixed(sub, &c, eval);
     Ok(())
 }
